@@ -455,10 +455,12 @@ def replay(case, params, v):
                 got = [x.decode("utf-8", errors="replace")
                        for x in b["logs/varlog"][:]]
             if got != lines:
+                j = [i for i in range(n) if i >= len(got)
+                     or got[i] != lines[i]][0]
                 fails.append("variable-length log line of %d characters / "
                              "%d bytes is copied as %d characters" % (
-                                 len(lines[0]), len(lines[0].encode()),
-                                 len(got[0])))
+                                 len(lines[j]), len(lines[j].encode()),
+                                 len(got[j]) if j < len(got) else 0))
             key = "h5ds_copy|variable-length-log|truncated"
         else:
             c1 = int(vals.get("chunk_deform", 3))
